@@ -89,6 +89,32 @@ def do(op: dict) -> dict:
             if op.get("keep"):
                 KEEP.append((nav, dict(vals)))
         return {"rows": res}
+    if kind == "makerreuse":
+        # ONE LocationMaker object lays out several records (its anchors are never emptied); each record is also laid out by a
+        # fresh maker.  Values are taken at once, before the next record is laid out.
+        docs = list(CP.schema_iter(io.StringIO(op["text"])))
+        schema = SI.SchemaMaker.from_json(docs[0])
+        WATCH.append((docs[0], copy.deepcopy(docs[0]), schema, copy.deepcopy(schema.json())))
+        unp = SI.EBCDIC()
+        maker = SI.LocationMaker(unp, schema)
+        res = {"reused": [], "fresh": []}
+        for rec_hex in op["records"]:
+            rec = bytes.fromhex(rec_hex)
+            for how in ("reused", "fresh"):
+                try:
+                    loc = maker.from_instance(rec) if how == "reused" else SI.LocationMaker(unp, schema).from_instance(rec)
+                    nav = SI.NDNav(unp, loc, rec)
+                    vals = {}
+                    for name in op["fields"]:
+                        try:
+                            n = nav.name(name)
+                            vals[name] = [n.location.start, n.location.end, repr(n.value())]
+                        except BaseException as ex:  # noqa: BLE001
+                            vals[name] = err_enum(ex)
+                    res[how].append({"end": loc.end, "fields": vals})
+                except BaseException as ex:  # noqa: BLE001
+                    res[how].append({"end": err_enum(ex), "fields": {}})
+        return res
     if kind == "wbread":
         # workbook rows read through hand-written schemas: without "position" the listing order is the column order; a property may
         # be a $ref to an earlier anchored one; two schemas may share the very same column definition objects in another order
